@@ -23,21 +23,29 @@ def extract(pkg, root):
     res = {"plans": {}, "unparsed": []}
     # reference
     ref = {}
+    refmeta = {}
     for p in pkg.protocols:
         for sn, st in p.steps:
-            ref[(p.name, sn)] = plans.ref_plan(am.resolve(pkg, st))
+            ct = am.resolve(pkg, st)
+            ref[(p.name, sn)] = plans.ref_plan(ct)
+            refmeta[(p.name, sn)] = plans.ref_union_meta(ct)
     res["ref"] = ref
+    res["refmeta"] = refmeta
     # python binary
     pyd = os.path.join(outdir, "py", ns)
     for backend, fname, kind, recf in (("py-binary", "binary.py", "Serializer", plans.py_records_binary), ("py-ndjson", "ndjson.py", "Converter", plans.py_records_ndjson)):
         txt = open(os.path.join(pyd, fname)).read()
         recs = recf(txt)
+        ucases = plans.py_union_cases(open(os.path.join(pyd, "types.py")).read())
         # imported namespaces: record serializers referenced as `imp.binary.IRSerializer()`
         for sub in os.listdir(pyd):
             sp = os.path.join(pyd, sub, fname)
             if os.path.isfile(sp):
                 for k, v in recf(open(sp).read()).items():
                     recs.setdefault(k, v)
+                for k, v in plans.py_union_cases(open(os.path.join(pyd, sub, "types.py")).read()).items():
+                    ucases.setdefault(k, v)
+        recs["__union_cases__"] = ucases
         steps = plans.py_step_plans(txt, kind)
         for key, node in steps.items():
             try:
@@ -50,11 +58,15 @@ def extract(pkg, root):
     if os.path.isdir(mbin):
         try:
             recs = plans.matlab_records(mbin)
+            ucases = {}
             for d in os.listdir(mroot):
                 ob = os.path.join(mroot, d, "+binary")
                 if os.path.isdir(ob) and ob != mbin:
                     for k, v in plans.matlab_records(ob).items():
                         recs.setdefault(k, v)
+                if d.startswith("+") and d != "+yardl":
+                    ucases.update(plans.matlab_union_cases(os.path.join(mroot, d), d[1:]))
+            recs["__union_cases__"] = ucases
             for key, node in plans.matlab_step_plans(mbin).items():
                 try:
                     res["plans"][("matlab-binary",) + key] = plans.matlab_plan(node, recs)
@@ -264,7 +276,8 @@ def main(tier):
                 continue
             chk.count()
             per_backend[backend] = per_backend.get(backend, 0) + 1
-            want, got = norm(res["ref"][key], backend), norm(plan, backend)
+            got, metas = plans.strip_meta(plan)
+            want, got = norm(res["ref"][key], backend), norm(got, backend)
             if backend == "py-ndjson" and want[0] == "stream":
                 want = want[1]          # NDJSON converters are per item: there is no stream wrapper
             sy = am.yaml_type(dict(protos[proto].steps)[step])
@@ -272,6 +285,25 @@ def main(tier):
             if want != got:
                 chk.fail("%s/plan-differs/%s" % (backend, sy), "%s serializes step %s.%s (%s) as %s, the model prescribes %s" % (backend, proto, step, sy, got, want),
                          {"backend": backend, "namespace": pkg.namespace, "protocol": proto, "step": step, "type": sy, "extracted": repr(got), "reference": repr(want)})
+            elif metas:
+                # same composition: now the per-union facts the composition does not show
+                wm = res["refmeta"][key]
+                if len(wm) != len(metas):
+                    raise build.HarnessError("union count of %s.%s differs between the plan and the model walk" % (proto, step))
+                for (flag, tags, idx_ok), (wflag, wtags) in zip(metas, wm):
+                    chk.nontriv((backend, "union-meta", flag, wflag, len(wtags)))
+                    why = None
+                    if not idx_ok:
+                        why = ("case-index", "the case classes / factories named at the positions of the union serializer do not carry the indices of those positions: "
+                               "the tag written for a case is not the position of its serializer")
+                    elif flag is not None and "param" not in (flag, wflag) and flag != wflag:
+                        why = ("ndjson-tagging", "union over %s is written %s, the documented rule (untagged iff all cases map to distinct JSON datatypes) says %s" % (list(wtags), flag, wflag))
+                    elif tags and all(t is not None for t in wtags) and tuple(tags) != tuple(wtags):
+                        why = ("case-tags", "case classes carry the tags %s, the model says %s" % (list(tags), list(wtags)))
+                    if why:
+                        chk.fail("%s/union-%s/%s" % (backend, why[0], sy), "%s step %s.%s (%s): %s" % (backend, proto, step, sy, why[1]),
+                                 {"backend": backend, "namespace": pkg.namespace, "protocol": proto, "step": step, "type": sy, "unions": repr(metas), "reference": repr(wm)})
+                        break
         for rec, field, why in res.get("omission", []):
             chk.count()
             chk.fail("py-ndjson/null-field-omission/%s" % ("alias" if field else "missing"), "record %s.%s.%s: %s" % (pkg.namespace, rec, field, why),
